@@ -14,12 +14,17 @@ func (md MaxDepth) CheckContainerPreConstraints(r *ChildRequest) (bool, error) {
 }
 
 func (md MaxDepth) checkPathLen(current *Path, base *Path) bool {
+	if current == nil || base == nil {
+		return true
+	}
+	// the segments below the base are told by the length of the paths: with a grouping that uses
+	// itself the same definitions come again at every level, where the base lies cannot be
+	// told from them
 	depth := 0
 	p := current
-	for p != nil && base != nil && p.Meta != base.Meta {
-		isListItem := meta.IsList(p.Meta) && p.Parent.Meta == p.Meta
-		if !isListItem {
-			// lists have 2 entries in a path, list node and list item node
+	for n := current.Len() - base.Len(); n > 0 && p != nil; n-- {
+		if !isItemBelowItsList(p) {
+			// lists may have 2 entries in a path, list node and list item node
 			depth++
 		}
 		if depth >= md.MaxDepth {
@@ -28,6 +33,28 @@ func (md MaxDepth) checkPathLen(current *Path, base *Path) bool {
 		p = p.Parent
 	}
 	return true
+}
+
+// isItemBelowItsList is true for the segment of a list item that follows the segment of
+// its list node (both carry the definition of the list)
+func isItemBelowItsList(p *Path) bool {
+	if !meta.IsList(p.Meta) || p.Parent == nil || p.Parent.Meta != p.Meta {
+		return false
+	}
+	if p.Key != nil {
+		// (below another item of the same definition it is the item of a list inside that item,
+		// a grouping that uses itself makes such lists)
+		return p.Parent.Key == nil
+	}
+	if p.Parent.Key != nil {
+		return false
+	}
+	// no keys to tell them apart: list node and item alternate, starting with the list node
+	run := 0
+	for q := p; q != nil && q.Meta == p.Meta && q.Key == nil; q = q.Parent {
+		run++
+	}
+	return run%2 == 0
 }
 
 func (md MaxDepth) CheckFieldPreConstraints(r *FieldRequest, hnd *ValueHandle) (bool, error) {
